@@ -428,6 +428,21 @@ static json fingerprint()
   return fp;
 }
 
+/* dispatch_depends() may throw (it does on some TestAny transitions): '1', '0' or 'X' + a record of what was thrown */
+static json depends_errors = json::array();
+static char safe_depends(const mc::Transition* a, const mc::Transition* b)
+{
+  try {
+    return a->dispatch_depends(b) ? '1' : '0';
+  } catch (const std::exception& e) {
+    if (depends_errors.size() < 5)
+      depends_errors.push_back({{"a", mc::Transition::to_c_str(a->type_)}, {"b", mc::Transition::to_c_str(b->type_)},
+                                {"a_tc", a->times_considered_}, {"b_tc", b->times_considered_},
+                                {"what", std::string(typeid(e).name()) + ": " + e.what()}});
+    return 'X';
+  }
+}
+
 /* ---- dumps ---- */
 static std::vector<mc::TransitionPtr> executed;
 static int branch       = -1;
@@ -492,7 +507,7 @@ static void dump_state(int step, bool with_fp, bool fp_only = false)
     std::string row(first.size(), '.');
     for (size_t k = 0; k < first.size(); k++)
       if (first[i] && first[k] && i != k)
-        row[k] = first[i]->dispatch_depends(first[k].get()) ? '1' : '0';
+        row[k] = safe_depends(first[i].get(), first[k].get());
     dep.push_back(row);
   }
   j["dep"] = dep;
@@ -628,8 +643,8 @@ static void dump_final(bool hb)
   for (size_t i = 0; i < n; i++) {
     std::string row(n, '0');
     for (size_t k = 0; k < n; k++)
-      if (i != k && executed[i]->dispatch_depends(executed[k].get()))
-        row[k] = '1';
+      if (i != k)
+        row[k] = safe_depends(executed[i].get(), executed[k].get());
     dep.push_back(row);
   }
   j["dep"] = dep;
@@ -637,7 +652,9 @@ static void dump_final(bool hb)
   for (auto const& t : executed)
     aids.push_back(t->aid_.c_val());
   j["aid"] = aids;
-  if (hb) {
+  if (not depends_errors.empty())
+    j["depends_errors"] = depends_errors;
+  if (hb && depends_errors.empty()) {
     mc::odpor::Execution E;
     for (auto const& t : executed)
       E.push_transition(t);
@@ -770,8 +787,8 @@ static int run_case(const std::string& text)
             bool ok_a            = peek::do_step(at, br[0]);
             json sj              = {{"k", "solo"}, {"a", br[0]}, {"b", br[1]}, {"b_solo", tb != nullptr}, {"a_done", ok_a}};
             if (ok_a && tb != nullptr && peek::executed.size() == before + 1) {
-              sj["dep_ab"] = peek::executed.back()->dispatch_depends(tb.get());
-              sj["dep_ba"] = tb->dispatch_depends(peek::executed.back().get());
+              sj["dep_ab"] = peek::safe_depends(peek::executed.back().get(), tb.get()) == '1';
+              sj["dep_ba"] = peek::safe_depends(tb.get(), peek::executed.back().get()) == '1';
               sj["chk_a"]  = peek::executed.back()->to_string(true);
               sj["chk_b"]  = tb->to_string(true);
             }
